@@ -39,6 +39,7 @@ import (
 	"encoding/pem"
 	"flag"
 	"fmt"
+	"io"
 	"os"
 	"regexp"
 	"runtime"
@@ -54,6 +55,7 @@ import (
 	"github.com/dapr/kit/crypto/aeskw"
 	"github.com/dapr/kit/crypto/padding"
 	kitpem "github.com/dapr/kit/crypto/pem"
+	enc "github.com/dapr/kit/schemes/enc/v1"
 
 	"verifharness/lib"
 )
@@ -61,7 +63,7 @@ import (
 // Case is one overlap case (also the replay format).
 type Case struct {
 	Kind     string `json:"kind"`   // crypto-overlap
-	Family   string `json:"family"` // asym | asym-generic | sig | sym | sym-generic | aeskw | aescbcaead | padding | keys | pem
+	Family   string `json:"family"` // asym | asym-generic | sig | sym | sym-generic | aeskw | aescbcaead | padding | keys | pem | enc-wrap
 	Alg      string `json:"alg"`    // an algorithm / form of the family, or "*": worker w takes the (w mod n)-th of the family
 	Mode     string `json:"mode"`   // roundtrip | burst | split
 	G        int    `json:"goroutines"`
@@ -86,6 +88,7 @@ type Result struct {
 	Case       Case     `json:"case"`
 	Procs      int      `json:"gomaxprocs_effective"`
 	Algs       []string `json:"algs"`
+	Alone      []string `json:"first_round_trip_alone"`
 	SoloBad    string   `json:"solo_unexpected,omitempty"`
 	Diffs      []Diff   `json:"diffs,omitempty"`
 	NDiffs     int      `json:"n_diffs"`
@@ -117,7 +120,8 @@ func (ks *keyStore) rsa(w int) *rsa.PrivateKey {
 			wg.Add(1)
 			go func(i int) {
 				defer wg.Done()
-				k, err := rsa.GenerateKey(rand.Reader, 2048)
+				// different moduli sizes for different workers (every size fits RSA-OAEP-512: k >= 130)
+				k, err := rsa.GenerateKey(rand.Reader, []int{2048, 1536, 1280, 1792}[i%4])
 				if err != nil {
 					panic(err)
 				}
@@ -222,6 +226,8 @@ var (
 	keyForms   = []string{"raw", "base64", "base64url", "jwk-oct", "jwk-rsa", "jwk-rsa-pub", "jwk-ec", "jwk-ed25519",
 		"pem-pkcs8-rsa", "pem-pkcs1-rsa", "pem-pkix-rsa", "pem-pkcs8-ec", "pem-sec1-ec", "pem-pkix-ec", "pem-pkcs8-ed25519", "pem-pkix-ed25519"}
 	pemForms = []string{"ec-P-256", "ec-P-384", "ec-P-521", "ed25519", "rsa"}
+	// key-wrapping algorithms of schemes/enc/v1 (KeyAlgorithm.Validate) with the two aliases
+	encWrapAlgs = []string{"A256KW", "A128CBC-NOPAD", "A192CBC-NOPAD", "A256CBC-NOPAD", "RSA-OAEP-256", "AES", "RSA"}
 )
 
 // FamilyAlgs: what "*" ranges over; also printed for the parent by --list.
@@ -243,6 +249,8 @@ func FamilyAlgs(family string) []string {
 		return keyForms
 	case "pem":
 		return pemForms
+	case "enc-wrap":
+		return encWrapAlgs
 	}
 	return nil
 }
@@ -255,7 +263,7 @@ func supportedBy(family, alg string) bool {
 		return contains(kitcrypto.SupportedSignatureAlgorithms(), alg)
 	case "sym", "sym-generic":
 		return contains(kitcrypto.SupportedSymmetricAlgorithms(), alg)
-	case "aeskw", "aescbcaead", "padding":
+	case "aeskw", "aescbcaead", "padding", "enc-wrap":
 		return true
 	}
 	return false // keys / pem forms: whatever they give alone is the reference
@@ -631,7 +639,6 @@ func mkWorker(c Case, w int, ks *keyStore) (*worker, error) {
 			if err != nil {
 				return "decode=" + errStr(err)
 			}
-			type pubber interface{ Public() any }
 			var want any
 			switch k := key.(type) {
 			case *ecdsa.PrivateKey:
@@ -649,6 +656,74 @@ func mkWorker(c Case, w int, ks *keyStore) (*worker, error) {
 				return "ANOTHER-KEY-DECODED"
 			}
 			return "ok pem=" + h8(mid.([]byte))
+		}
+	case "enc-wrap":
+		// a complete schemes/enc/v1 stream whose file key is wrapped / unwrapped by the crypto package
+		// with this worker's own key-encryption key
+		var kek jwk.Key
+		var err error
+		switch alg {
+		case "RSA-OAEP-256", "RSA":
+			kek, err = jwk.FromRaw(ks.rsa(w))
+		case "A128CBC-NOPAD":
+			kek, err = jwk.FromRaw(rng.Bytes(16))
+		case "A192CBC-NOPAD":
+			kek, err = jwk.FromRaw(rng.Bytes(24))
+		default:
+			kek, err = jwk.FromRaw(rng.Bytes(32))
+		}
+		if err != nil {
+			return nil, err
+		}
+		keyName := fmt.Sprintf("key-of-worker-%d", w)
+		iv := func(a string) []byte {
+			if strings.Contains(a, "CBC") {
+				return make([]byte, 16)
+			}
+			return nil
+		}
+		msgs := make([][]byte, d)
+		for j := range msgs {
+			msgs[j] = rng.Bytes([]int{100, 0, 70000, 1, 65536, 3000}[(w+j)%6])
+		}
+		wk.a = func(j int) (any, string) {
+			opts := enc.EncryptOptions{Algorithm: enc.KeyAlgorithm(alg), KeyName: keyName,
+				WrapKeyFn: func(k []byte, a, kn string, nonce []byte) ([]byte, []byte, error) {
+					return kitcrypto.Encrypt(k, a, kek, iv(a), nil)
+				}}
+			if (w+j)%2 == 1 {
+				cph := enc.CipherChaCha20Poly1305
+				opts.Cipher = &cph
+			}
+			r, err := enc.Encrypt(bytes.NewReader(msgs[j]), opts)
+			if err != nil {
+				return nil, "encrypt=" + errStr(err)
+			}
+			doc, err := io.ReadAll(r)
+			if err != nil {
+				return nil, "encrypt-stream=" + errStr(err)
+			}
+			return doc, ""
+		}
+		wk.b = func(j int, mid any) string {
+			r, err := enc.Decrypt(bytes.NewReader(mid.([]byte)), enc.DecryptOptions{
+				UnwrapKeyFn: func(wfk []byte, a, kn string, nonce, tag []byte) ([]byte, error) {
+					if kn != keyName {
+						return nil, fmt.Errorf("asked for key %q", kn)
+					}
+					return kitcrypto.Decrypt(wfk, a, kek, iv(a), nil, nil)
+				}})
+			if err != nil {
+				return "decrypt=" + errStr(err)
+			}
+			pt, err := io.ReadAll(r)
+			if err != nil {
+				return "decrypt-stream=" + errStr(err)
+			}
+			if !bytes.Equal(pt, msgs[j]) {
+				return fmt.Sprintf("WRONG-PLAINTEXT(len %d for %d)", len(pt), len(msgs[j]))
+			}
+			return "ok"
 		}
 	default:
 		return nil, fmt.Errorf("unknown family %q", c.Family)
@@ -794,6 +869,9 @@ func runCase(c Case, ks *keyStore) (r Result) {
 				r.SoloBad = fmt.Sprintf("worker %d (%s), round trip %d run alone: %s", w, wk.alg, j, res)
 			}
 		}
+	}
+	for w := range ws {
+		r.Alone = append(r.Alone, solo[w][0])
 	}
 	if r.SoloBad != "" {
 		return
@@ -955,7 +1033,7 @@ func main() {
 	flag.Parse()
 	if *list {
 		m := map[string][]string{}
-		for _, f := range []string{"asym", "asym-generic", "sig", "sym", "sym-generic", "aeskw", "aescbcaead", "padding", "keys", "pem"} {
+		for _, f := range []string{"asym", "asym-generic", "sig", "sym", "sym-generic", "aeskw", "aescbcaead", "padding", "keys", "pem", "enc-wrap"} {
 			m[f] = FamilyAlgs(f)
 		}
 		b, _ := json.Marshal(m)
